@@ -367,11 +367,13 @@ func (e *Executor) execute(ctx context.Context, isRootPlan bool, p *Plan, keys [
 	// executing in different parts of the plan on different services
 	var resMu sync.Mutex
 
-	// For every nested query in the plan, execute it on the specified service and stitch
-	// the results into a response
-	for _, currentSubPlan := range p.After {
-		subPlan := currentSubPlan
-		var subPlanMetaData pathSubqueryMetadata
+	// Find the keys and the target objects of every nested query before any of
+	// them runs: once a sub-plan's goroutine stitches its results into the
+	// objects of res, walking res from here would read maps that are being
+	// written.
+	subPlanMetaDatas := make([]pathSubqueryMetadata, len(p.After))
+	for i, subPlan := range p.After {
+		subPlanMetaData := &subPlanMetaDatas[i]
 		if p.Service == gatewayCoordinatorServiceName {
 			subPlanMetaData.keys = nil // On the root query there are no specified keys
 			// On the root query, there will only be one result since
@@ -385,6 +387,13 @@ func (e *Executor) execute(ctx context.Context, isRootPlan bool, p *Plan, keys [
 				return nil, nil, fmt.Errorf("failed to extract keys %v: %v", subPlan.Path, err)
 			}
 		}
+	}
+
+	// For every nested query in the plan, execute it on the specified service and stitch
+	// the results into a response
+	for i, currentSubPlan := range p.After {
+		subPlan := currentSubPlan
+		subPlanMetaData := subPlanMetaDatas[i]
 
 		g.Go(func() error {
 			// Execute the subquery on the specified service
